@@ -56,14 +56,14 @@ theorem core2_canon_idem (m : Core2.Mod) (h : Core2.WF m) : Core2.canon (Core2.c
 /-! ## M-Core-3: function definitions -/
 
 /-- the printed text of a well-formed function is a fixpoint of parse-then-print, reached in one step, and the second parse returns the same function -/
-theorem core3_one_step_fixpoint (useHex : Int → Bool) (f : Core3.Func) (h : Core3.wf f = true) :
+theorem core3_one_step_fixpoint (useHex : Int → Bool) (f : Core3.Func) (h : Core3.wf f = true) (hmd : Core3.mdWF useHex f = true) :
     (Core3.parse (Core3.printFunc useHex f)).map (Core3.printFunc useHex) = some (Core3.printFunc useHex f) := by
-  rw [C01.core3_roundtrip useHex f h]; rfl
+  rw [C01.core3_roundtrip useHex f h hmd]; rfl
 
-theorem core3_second_parse_identical (useHex : Int → Bool) (f g : Core3.Func) (h : Core3.wf f = true)
+theorem core3_second_parse_identical (useHex : Int → Bool) (f g : Core3.Func) (h : Core3.wf f = true) (hmd : Core3.mdWF useHex f = true)
     (hg : Core3.parse (Core3.printFunc useHex f) = some g) : Core3.parse (Core3.printFunc useHex g) = some g := by
-  rw [C01.core3_roundtrip useHex f h] at hg
+  rw [C01.core3_roundtrip useHex f h hmd] at hg
   injection hg with hg; subst hg
-  exact C01.core3_roundtrip useHex f h
+  exact C01.core3_roundtrip useHex f h hmd
 
 end Llir.Props.C02
